@@ -3,15 +3,14 @@ CONSTANTS
   Pubs = {"p1", "p2"}
   MaxMsgs = 3
   MaxPerPub = 2
-  MaxReads = 0
-  OccSet = {TRUE, FALSE}
+  MaxReads = 1
+  OccSet = {TRUE}
   BatchSet = {2}
-  PathSet = {"async", "sync"}
-  MaxPauses = 1
-  Kinds = {"waive", "stale", "equal", "future", "neg"}
-  Pols = {"leader", "none"}
-  Mut = "none"
+  PathSet = {"async"}
+  MaxPauses = 0
+  Kinds = {"waive", "stale", "equal", "future"}
+  Pols = {"leader", "all"}
+  Mut = "nack_leader_only"
 INVARIANTS TypeOK C16_Dense C16_Once C16_StoredAtExpected C16_AckOffset C16_RejectNotStored C16_RejectJustified C16_WaivedAccepted C16_OneWinner C16_NoneNotSilent C16_Answered I_Resolved I_NonOccAll I_Order I_RejectWindow
-PROPERTIES StepsOK LogGrows
 VIEW MCView
 CHECK_DEADLOCK FALSE
